@@ -19,7 +19,8 @@ ClumpDefault == 8192
 (* ---------------------------------------------------------------- L2: the library's prediction *)
 StrPad4(n) == n + 4 - (n % 4)        \* NetAddr._strpad4
 \* values for which _calc_* returns a number (it raises for the others: no prediction is made)
-RECURSIVE Predictable(_)
+RECURSIVE Predictable(_), AsciiAddrs(_)
+AsciiAddrsArg(a) == IF a.t \in {"m", "B"} THEN AsciiAddrs(a) ELSE TRUE
 Predictable(v) ==
     IF v.t = "m"
     THEN /\ \A k \in 1..Len(v.a) : v.a[k] < 128          \* bytes(msg[0], 'ascii')
@@ -39,7 +40,12 @@ PredMsg(m) == StrPad4(Len(m.a)) + StrPad4(Len(m.args) + 1) + Sum([i \in 1..Len(m
 PredEls(els) == 16 + Sum([i \in 1..Len(els) |-> 4 + (IF els[i].t = "m" THEN PredMsg(els[i]) ELSE PredEls(els[i].el))])
 Pred(v) == IF v.t = "m" THEN PredMsg(v) ELSE PredEls(v.el)
 
-\* L1
+\* L1: a prediction is either REFUSED (the predictor raises: non-ASCII text in an address - also of a nested /
+\* completion message -, bundle-shaped completion message, ...) or it is not below the real encoded length.
+\* out = [k |-> "ok", n |-> predicted] | [k |-> "raise"]
+PredSound(v, out) == out.k = "raise" \/ out.n >= EncLen(v)
+AsciiAddrs(v) == IF v.t = "m" THEN (\A k \in 1..Len(v.a) : v.a[k] < 128) /\ \A i \in 1..Len(v.args) : AsciiAddrsArg(v.args[i])
+                 ELSE IF v.t = "B" THEN \A i \in 1..Len(v.el) : AsciiAddrs(v.el[i]) ELSE TRUE
 PredNotBelow(v, off) == (Predictable(v) /\ ~MustRefuse(v, off)) => Pred(v) >= EncLen(v)
 
 (* ---------------------------------------------------------------- completion messages in function form *)
